@@ -1,4 +1,164 @@
-import XgiModel.C02.DHG
+/-
+  C02 — Directed incidence integrity (tail/head vs out/in) under every edit history.
+  Property theorems only; the model is C02/DHG.lean (the functions the driver `DHG` runs), helper lemmas
+  live in C02/Lemmas.lean.
+
+  Reading of the model's fields (checked against xgi/core/dihypergraph.py and views.py):
+    tail e    = `DH.edges.tail(e)`  = `_edge[e]["in"]`      head e   = `DH.edges.head(e)` = `_edge[e]["out"]`
+    membOut n = `DH.nodes.dimemberships(n)[1]` = `_node[n]["out"]`  (edges with n in the tail)
+    membIn n  = `DH.nodes.dimemberships(n)[0]` = `_node[n]["in"]`   (edges with n in the head)
+-/
+import XgiModel.C02.Lemmas
+
 namespace Xgi.C02
-theorem placeholder : True := trivial
+open Xgi Xgi.DHG
+
+/-- run a history of public calls; `none` only when an op falls outside the model
+    (tuple edge IDs / non-sequence members in the first element of a bulk addition) -/
+def run : DHG → List Op → Option DHG
+  | s, [] => some s
+  | s, op :: ops => match step s op with
+    | none => none
+    | some r => run r.1 ops
+
+/-- the states reachable from the empty dihypergraph by public calls (returning or raising) -/
+inductive Reachable : DHG → Prop
+  | empty : Reachable DHG.empty
+  | step {s : DHG} {op : Op} {r : DHG × Outcome} : Reachable s → step s op = some r → Reachable r.1
+
+/-- one call — whether it returns (`ok`/`warned`) or raises (`err _`) — preserves the invariant
+    (directed two-way incidence + one attribute record per ID + counter above all integer edge IDs) -/
+theorem C02_step {s : DHG} (h : Inv s) (op : Op) (r : DHG × Outcome) (hr : step s op = some r) : Inv r.1 :=
+  step_inv h op r hr
+
+/-- every reachable state satisfies the invariant -/
+theorem C02_reachable {s : DHG} (h : Reachable s) : Inv s := by
+  induction h with
+  | empty => exact empty_inv
+  | step _ hr ih => exact C02_step ih _ _ hr
+
+/-- after any finite history -/
+theorem C02_history (ops : List Op) (s s' : DHG) (h : Inv s) (hr : run s ops = some s') : Inv s' := by
+  induction ops generalizing s with
+  | nil => simp [run] at hr; subst hr; exact h
+  | cons op ops ih =>
+    simp only [run] at hr
+    split at hr
+    · cases hr
+    · rename_i r hs; exact ih r.1 (C02_step h op r hs) hr
+
+/-- … and after every prefix of it -/
+theorem C02_prefix (ops : List Op) (s' : DHG) (hr : run DHG.empty ops = some s') (k : Nat) :
+    ∃ t, run DHG.empty (ops.take k) = some t ∧ WFd t := by
+  have key : ∀ (ops : List Op) (s s' : DHG), Inv s → run s ops = some s' → ∀ k, ∃ t, run s (ops.take k) = some t ∧ WFd t := by
+    intro ops
+    induction ops with
+    | nil => intro s s' h _ k; exact ⟨s, by simp [run], h.1⟩
+    | cons op ops ih =>
+      intro s s' h hr k
+      cases k with
+      | zero => exact ⟨s, by simp [run], h.1⟩
+      | succ k =>
+        simp only [run] at hr
+        split at hr
+        · cases hr
+        · rename_i r hs
+          obtain ⟨t, ht, hw⟩ := ih r.1 s' (C02_step h op r hs) hr k
+          exact ⟨t, by simp [run, hs, ht], hw⟩
+  exact key ops DHG.empty s' empty_inv hr k
+
+/-- a node is reported in the tail of an edge exactly when that edge is among its out-memberships -/
+theorem C02_iff_tail {s : DHG} (h : Reachable s) {n e : PyId} (hn : n ∈ s.nodes) (he : e ∈ s.edges) :
+    n ∈ s.tail e ↔ e ∈ s.membOut n :=
+  ⟨fun hm => ((C02_reachable h).1.tail2out e he n hm).2, fun hm => ((C02_reachable h).1.out2tail n hn e hm).2⟩
+
+/-- a node is reported in the head of an edge exactly when that edge is among its in-memberships -/
+theorem C02_iff_head {s : DHG} (h : Reachable s) {n e : PyId} (hn : n ∈ s.nodes) (he : e ∈ s.edges) :
+    n ∈ s.head e ↔ e ∈ s.membIn n :=
+  ⟨fun hm => ((C02_reachable h).1.head2in e he n hm).2, fun hm => ((C02_reachable h).1.in2head n hn e hm).2⟩
+
+/-- no node refers to an absent edge: every edge listed in a node's in- or out-memberships exists
+    (in particular after strong node removal, which is an op like any other) -/
+theorem C02_no_dangling {s : DHG} (h : Reachable s) {n : PyId} (hn : n ∈ s.nodes) :
+    ∀ e ∈ s.membIn n ++ s.membOut n, e ∈ s.edges := by
+  intro e he
+  rcases List.mem_append.mp he with he | he
+  · exact ((C02_reachable h).1.in2head n hn e he).1
+  · exact ((C02_reachable h).1.out2tail n hn e he).1
+
+/-- no edge refers to an absent node: every node listed in an edge's tail or head exists -/
+theorem C02_members_are_nodes {s : DHG} (h : Reachable s) {e : PyId} (he : e ∈ s.edges) :
+    ∀ n ∈ s.tail e ++ s.head e, n ∈ s.nodes := by
+  intro n hn
+  rcases List.mem_append.mp hn with hn | hn
+  · exact ((C02_reachable h).1.tail2out e he n hn).1
+  · exact ((C02_reachable h).1.head2in e he n hn).1
+
+/-- the state right after a strong node removal (whatever it returned) has no dangling membership and no
+    edge that still lists the removed node -/
+theorem C02_strong_removal {s : DHG} (h : Reachable s) (n : PyId) (re : Bool) (r : DHG × Outcome)
+    (hr : step s (.removeNode n true re) = some r) :
+    (∀ m ∈ r.1.nodes, ∀ e ∈ r.1.membIn m ++ r.1.membOut m, e ∈ r.1.edges) ∧
+    (∀ e ∈ r.1.edges, ∀ m ∈ r.1.tail e ++ r.1.head e, m ∈ r.1.nodes) :=
+  have h' : Reachable r.1 := Reachable.step h hr
+  ⟨fun _ hm => C02_no_dangling h' hm, fun _ he => C02_members_are_nodes h' he⟩
+
+/-- every node and every edge has exactly one attribute record (and nothing else has one) -/
+theorem C02_one_attr_record {s : DHG} (h : Reachable s) :
+    (∀ n, n ∈ s.nattrK ↔ n ∈ s.nodes) ∧ s.nattrK.Nodup ∧ (∀ e, e ∈ s.eattrK ↔ e ∈ s.edges) ∧ s.eattrK.Nodup :=
+  let w := (C02_reachable h).1
+  ⟨w.attrN, w.nodupNK, w.attrE, w.nodupEK⟩
+
+/-- `None` is never a node or an edge; IDs and set entries are never listed twice -/
+theorem C02_ids_wellformed {s : DHG} (h : Reachable s) :
+    PyId.none ∉ s.nodes ∧ PyId.none ∉ s.edges ∧ s.nodes.Nodup ∧ s.edges.Nodup ∧
+    (∀ n ∈ s.nodes, (s.membIn n).Nodup ∧ (s.membOut n).Nodup) ∧
+    (∀ e ∈ s.edges, (s.tail e).Nodup ∧ (s.head e).Nodup) :=
+  let w := (C02_reachable h).1
+  ⟨w.noNoneN, w.noNoneE, w.nodupN, w.nodupE, fun n hn => ⟨w.setIn n hn, w.setOut n hn⟩,
+   fun e he => ⟨w.setTail e he, w.setHead e he⟩⟩
+
+/-- automatic edge IDs never collide with an existing edge (what keeps `add_edge` from overwriting) -/
+theorem C02_auto_id_fresh {s : DHG} (h : Reachable s) : PyId.int (s.uid : Int) ∉ s.edges :=
+  uid_not_mem (C02_reachable h).2
+
+/-! ### non-vacuity: concrete non-trivial histories run inside the model and meet the hypotheses -/
+
+private def pair (t h : List Int) : DiMembers := .pair (t.map PyId.int) (h.map PyId.int)
+
+private def demoOps : List Op :=
+  [ .addEdge (pair [1, 2] [2, 3]) none [],                       -- edge 0; node 2 in tail and head
+    .addEdgesFrom .f2 [{ members := pair [3] [4], idx := some (.int 0), attr := [] },      -- id exists: warned
+                       { members := pair [3] [4, 4], idx := some (.int 7), attr := [] }] [],
+    .addEdge (.pair [.int 1, .none] [.int 2]) none [],             -- raises before any write
+    .addEdge .short (some (.int 9)) [],                            -- IndexError
+    .addNodeToEdge (.int 9) (.int 1) .head,                        -- creates edge 9, counter moves to 10
+    .addNodeToEdge (.int 9) (.str "a") .tail,
+    .removeNodeFromEdge (.int 0) (.int 2) .tail true,              -- 2 stays in the head of 0
+    .removeNode (.int 3) true true ]                               -- strong: deletes edges 0 and 7
+
+example : (run DHG.empty demoOps).isSome = true := by decide
+example : ((run DHG.empty demoOps).map (·.edges)) = some [.int 9] := by decide
+example : ((run DHG.empty demoOps).map (·.nodes)) = some [.int 1, .int 2, .int 4, .str "a"] := by decide
+example : ((run DHG.empty demoOps).map (fun s => (s.tail (.int 9), s.head (.int 9)))) = some ([.str "a"], [.int 1]) := by decide
+-- after the strong removal of 3 the survivors 1, 2, 4 no longer list the deleted edges 0 and 7
+example : ((run DHG.empty demoOps).map (fun s => (s.membIn (.int 1), s.membOut (.int 1), s.membIn (.int 2),
+    s.membOut (.int 2), s.membIn (.int 4)))) = some ([.int 9], [], [], [], []) := by decide
+example : ((run DHG.empty demoOps).map (·.uid)) = some 10 := by decide
+
+/-- a node that is in both the head and the tail of one edge is an ordinary reachable state -/
+private def bothOps : List Op := [ .addEdge (pair [1, 2] [2, 3]) none [] ]
+example : ((run DHG.empty bothOps).map (fun s =>
+    (decide (PyId.int 2 ∈ s.tail (.int 0)), decide (PyId.int 2 ∈ s.head (.int 0)),
+     s.membOut (.int 2), s.membIn (.int 2)))) = some (true, true, [.int 0], [.int 0]) := by decide
+example : Reachable ((run DHG.empty bothOps).getD DHG.empty) :=
+  Reachable.step (op := .addEdge (pair [1, 2] [2, 3]) none []) Reachable.empty rfl
+
+/-- weak removal of a node that is on both sides; the emptied edge goes only with `remove_empty` -/
+private def weakOps (re : Bool) : List Op :=
+  [ .addEdge (pair [5] [5]) none [], .addEdge (pair [5, 6] []) none [], .removeNode (.int 5) false re ]
+example : ((run DHG.empty (weakOps true)).map (fun s => (s.edges, s.tail (.int 1)))) = some ([.int 1], [.int 6]) := by decide
+example : ((run DHG.empty (weakOps false)).map (fun s => (s.edges, s.tail (.int 0), s.head (.int 0)))) =
+    some ([.int 0, .int 1], [], []) := by decide
+
 end Xgi.C02
